@@ -1,11 +1,13 @@
 import TapkeeVerif.Model.Mat
+import TapkeeVerif.Model.DMat
 import TapkeeVerif.Model.RandProj
 /-!
 Model of Factor Analysis (`methods/factor_analysis.hpp`, `routines/fa.hpp`), core Lean only.
 Samples are the ROWS of `X : Mat N D K`; the code's `X` (D × N, centred) is `(centre X)ᵀ`.
+Pipeline stages are cached as first-order data (`DMat`, `DMat.get_ofFn : (DMat.ofFn A).get = A`).
 
 Inputs that the exact-arithmetic model cannot compute are parameters:
-* `rnd c` — the `c`-th entry of `DenseMatrix::Random(D, d)` (column-major fill), so `A₀ = |rnd|`;
+* `A0` — `DenseMatrix::Random(D, d).cwiseAbs()` (`initLoading` from the stream of `Random()` entries);
 * the EM step is an ABSTRACT map `em : (centred data) → (A, sig) → iteration → (A', sig') × stop?`;
   the translation-invariance theorem holds for every such map.  `emStep` below is the transcription of the code's
   step with the matrix inverses as oracles (contract `M * inv M = 1`) and the convergence test
@@ -15,47 +17,53 @@ namespace TapkeeVerif.Fa
 open TapkeeVerif.RandProj
 variable {K : Type} {N D d : Nat}
 
-/-- `DenseMatrix::Random(dimension, target_dimension).cwiseAbs()` -/
-def initLoading (absO : K → K) (rnd : Nat → K) : Mat D d K := fun i j => absO (rnd (j.1 * D + i.1))
+/-- `(A, sig)` : loading matrix and noise matrix carried by the EM loop -/
+abbrev EmState (K : Type) (D d : Nat) := DMat D d K × DMat D D K
+
+/-- `DenseMatrix::Random(dimension, target_dimension).cwiseAbs()` (column-major fill) -/
+def initLoading (absO : K → K) (rnd : Nat → K) : DMat D d K := DMat.ofFn fun i j => absO (rnd (j.1 * D + i.1))
 
 /-- the loop `while (iter < max_iter) { ++iter; …; if (converged) break; }` over an abstract EM step -/
-def emLoop (em : Mat D d K × Mat D D K → Nat → (Mat D d K × Mat D D K) × Bool) :
-    (todo iter : Nat) → Mat D d K × Mat D D K → Mat D d K × Mat D D K
+def emLoop (em : EmState K D d → Nat → EmState K D d × Bool) :
+    (todo iter : Nat) → EmState K D d → EmState K D d
   | 0, _, s => s
   | todo + 1, iter, s =>
     let r := em s (iter + 1)
     if r.2 then r.1 else emLoop em todo (iter + 1) r.1
 
-/-- `project(...)` of `routines/fa.hpp`: `X.transpose() * A` for the centred data and the fitted loading matrix -/
+/-- `project(...)` of `routines/fa.hpp`: `X.transpose() * A` for the centred data and the fitted loading matrix;
+    `sig` starts as the identity -/
 def embedWith [Add K] [Zero K] [Sub K] [Mul K] [Div K] [NatCast K] [One K]
-    (em : Mat N D K → Mat D d K × Mat D D K → Nat → (Mat D d K × Mat D D K) × Bool)
-    (A0 : Mat D d K) (maxIt : Nat) (X : Mat N D K) : Mat N d K :=
-  let Xc := Mat.materialize (centre X)
-  let fit := emLoop (em Xc) maxIt 0 (A0, Mat.one)
-  Mat.mul Xc fit.1
+    (em : DMat N D K → EmState K D d → Nat → EmState K D d × Bool)
+    (A0 : DMat D d K) (maxIt : Nat) (X : Mat N D K) : DMat N d K :=
+  let Xc : DMat N D K := DMat.ofFn (centre X)
+  let fit := emLoop (em Xc) maxIt 0 (A0, DMat.ofFn Mat.one)
+  DMat.ofFn (Mat.mul Xc.get fit.1.get)
 
 /-- the EM step as written (`Xc` = centred samples as rows, so the code's `X` is `Xcᵀ`) -/
 def emStep [Add K] [Zero K] [Sub K] [Mul K] [Div K] [NatCast K] [One K]
-    (invD : Mat D D K → Mat D D K) (invd : Mat d d K → Mat d d K) (stop : Nat → Bool) (eps : K)
-    (Xc : Mat N D K) (s : Mat D d K × Mat D D K) (iter : Nat) : (Mat D d K × Mat D D K) × Bool :=
-  let A := s.1
-  let sig := s.2
-  let Xt : Mat D N K := Mat.transpose Xc                       -- the code's X
+    (invD : DMat D D K → DMat D D K) (invd : DMat d d K → DMat d d K) (stop : Nat → Bool) (eps : K)
+    (Xc : DMat N D K) (s : EmState K D d) (iter : Nat) : EmState K D d × Bool :=
+  let A : Mat D d K := s.1.get
+  let sig : Mat D D K := s.2.get
+  let Xr : Mat N D K := Xc.get
+  let Xt : Mat D N K := Mat.transpose Xr                       -- the code's X
   -- invC = (A * A.transpose() + sig).inverse()
-  let invC := Mat.materialize (invD (Mat.materialize (Mat.add (Mat.mul A (Mat.transpose A)) sig)))
+  let invC : DMat D D K := invD (DMat.ofFn (Mat.add (Mat.mul A (Mat.transpose A)) sig))
   -- M = A.transpose() * invC * X
-  let AtC := Mat.materialize (Mat.mul (Mat.transpose A) invC)
-  let M : Mat d N K := Mat.materialize (Mat.mul AtC Xt)
+  let AtC : DMat d D K := DMat.ofFn (Mat.mul (Mat.transpose A) invC.get)
+  let M : DMat d N K := DMat.ofFn (Mat.mul AtC.get Xt)
   -- SC = n * (I - A.transpose() * invC * A) + M * M.transpose()
-  let SC : Mat d d K := Mat.materialize
-    (Mat.add (Mat.smul (N : K) (Mat.sub Mat.one (Mat.mul AtC A))) (Mat.mul M (Mat.transpose M)))
+  let SC : DMat d d K := DMat.ofFn
+    (Mat.add (Mat.smul (N : K) (Mat.sub Mat.one (Mat.mul AtC.get A))) (Mat.mul M.get (Mat.transpose M.get)))
   -- A = (X * M.transpose()) * SC.inverse()
-  let A' : Mat D d K := Mat.materialize (Mat.mul (Mat.materialize (Mat.mul Xt (Mat.transpose M))) (invd SC))
+  let XMt : DMat D d K := DMat.ofFn (Mat.mul Xt (Mat.transpose M.get))
+  let A' : DMat D d K := DMat.ofFn (Mat.mul XMt.get (invd SC).get)
   -- sig = DenseMatrix(((X*X.transpose() - A*M*X.transpose()).diagonal() / n).asDiagonal()).array() + epsilon
-  let XXt : Mat D D K := Mat.mul Xt Xc
-  let AMXt : Mat D D K := Mat.mul (Mat.materialize (Mat.mul A' M)) Xc
-  let sig' : Mat D D K := Mat.materialize fun i j =>
-    (if i = j then (XXt i i - AMXt i i) / (N : K) else 0) + eps
+  --       (`.array() + epsilon` adds epsilon to EVERY entry of the dense matrix, off-diagonal ones included)
+  let AM : DMat D N K := DMat.ofFn (Mat.mul A'.get M.get)
+  let sig' : DMat D D K := DMat.ofFn fun i j =>
+    (if i = j then ((sumFin N fun n => Xt i n * Xr n i) - (sumFin N fun n => AM.get i n * Xr n i)) / (N : K) else 0) + eps
   ((A', sig'), stop iter)
 
 end TapkeeVerif.Fa
